@@ -173,6 +173,12 @@ func checkConstructed(cs *Case, o *obs) []Problem {
 	}
 	if err != nil {
 		code := errCode(err)
+		if code == contactql.ErrRedactedURNs {
+			// under the URN redaction policy a query on URNs is rejected by design (C19's subject), so a
+			// constructed URN condition is not a valid query for this configuration
+			o.reject = code
+			return nil
+		}
 		if code == contactql.ErrInvalidPartialName || code == contactql.ErrInvalidPartialURN {
 			// the constructed condition itself is not a valid query (contains-operator value too short)
 			o.reject = code
@@ -254,6 +260,12 @@ func checkSubstituted(kind string, cs *Case, text string, tpl template, v, w str
 	q, err, pnc := guardedParse(cs.Cfg, text, o)
 	if pnc != "" {
 		return []Problem{{Key: "panic:parse:" + mc.PanicSite(pnc), What: fmt.Sprintf("ParseQuery panicked (%s): %q\n%s", cs.Cfg, text, pnc)}}
+	}
+	if err != nil && errCode(err) == contactql.ErrRedactedURNs {
+		// the template itself queries URNs, which this configuration (redaction) rejects by design
+		o.accepted = false
+		o.reject = contactql.ErrRedactedURNs
+		return nil
 	}
 	if err != nil {
 		return []Problem{{
